@@ -3,7 +3,7 @@ import ast
 
 from ..astx import (calls_in, dotted, norm, src, iter_nodes, aliases_of, assigned_targets,
                     assigned_names, const_value, is_const, parent_chain)
-from ..lib import (call_arg, relation, truth, other, cmp_views, core, holds_region, conditions, path_tests, entails_empty, paths_entail_empty, eval_conditions, relation_tests, atom_key, expand_condition, mode_mismatch_conditions, cfg_nodes_with_call, node_calls, returns, stmt_assigns_attr, callee_last,
+from ..lib import (call_arg, relation, truth, other, cmp_views, core, holds_region, conditions, found_test, found_tests, path_tests, entails_empty, paths_entail_empty, eval_conditions, relation_tests, atom_key, expand_condition, mode_mismatch_conditions, cfg_nodes_with_call, node_calls, returns, stmt_assigns_attr, callee_last,
                    guard_region, find_test_nodes, compare_parts, is_name, is_self_attr)
 from ..linear import lin, ctext, Lin, slice_bounds
 from ..loader import AnalysisError
@@ -62,13 +62,12 @@ def eval_guard(e, env):
         # validity of a find() result: n >= 0, n > -1, n != -1, n < 0, n == -1
         if isinstance(l, ast.Name) and l.id == env.get('validvar') and env.get('validkind') == 'sign':
             k = const_value(r, None)
-            if k is not None and not isinstance(k, bool):
-                if isinstance(op, ast.GtE) and k == 0 or isinstance(op, ast.Gt) and k == -1 or \
-                        isinstance(op, ast.NotEq) and k == -1:
-                    return env['valid']
-                if isinstance(op, ast.Lt) and k == 0 or isinstance(op, ast.LtE) and k == -1 or \
-                        isinstance(op, ast.Eq) and k == -1:
-                    return not env['valid']
+            if isinstance(k, int) and not isinstance(k, bool):
+                # find() returns -1 or a position >= 0: evaluate the comparison on the concrete value of this scenario
+                import operator as _op
+                fn = {ast.GtE: _op.ge, ast.Gt: _op.gt, ast.NotEq: _op.ne, ast.Lt: _op.lt, ast.LtE: _op.le, ast.Eq: _op.eq}.get(type(op))
+                if fn is not None:
+                    return fn(env['nval'], k)
         # cand OP best / best OP cand
         names = (l.id if isinstance(l, ast.Name) else None, r.id if isinstance(r, ast.Name) else None)
         if names == (env['cand'], env['best']) or names == (env['best'], env['cand']):
@@ -290,7 +289,11 @@ def check_search(c2, c3, repo, ctor, f, kind):
     rows = []
     bad = []
     for (rel, valid), expect in sorted(want.items()):
-        env = {'best': best, 'cand': cand, 'rel': rel, 'valid': valid, 'validvar': validvar, 'validkind': validkind}
+      # a position found by find() is 0 or larger (both are tried: a match at the very start of the buffer is a match); -1 = not found
+      for nval in ((0, 3) if valid else (-1,)):
+        env = {'best': best, 'cand': cand, 'rel': rel, 'valid': valid, 'validvar': validvar, 'validkind': validkind, 'nval': nval}
+        if nval == 0 and rel == 'gt':
+            continue        # a candidate at position 0 cannot lie after the best so far
         try:
             got = True
             # source order: outer guards / earlier continues first
@@ -300,7 +303,7 @@ def check_search(c2, c3, repo, ctor, f, kind):
                     break
         except Unknown as u:
             raise AnalysisError('%s: update guard uses a comparison the evaluator does not know: %s' % (f.qual, u))
-        rows.append('%s/%s->%s' % (rel, 'valid' if valid else 'invalid', got))
+        rows.append('%s/%s%s->%s' % (rel, 'valid' if valid else 'invalid', '@%d' % nval if validkind == 'sign' else '', got))
         if got != expect:
             bad.append((rel, valid, got, expect))
     msg = {'eq': 'a later-listed pattern matching at the SAME position replaces the earlier one (ties must keep the first-listed)',
@@ -409,10 +412,13 @@ def check_copy(c, repo):
     c.need(len(sn) == 1 and isinstance(sn[0][0].ast, ast.Assign), 'do_search: index = searcher.search(...) not found')
     idx = sn[0][0].ast.targets[0].id
     recv = ctext(sn[0][1].func.value, f)
-    tests = find_test_nodes(f, lambda t: compare_parts(t) is not None and is_name(compare_parts(t)[0], idx)
-                            and isinstance(compare_parts(t)[1], ast.GtE) and is_const(compare_parts(t)[2], 0))
-    c.need(len(tests) == 1, 'do_search: `if index >= 0` not found')
-    region = guard_region(g, tests[0], 'true')
+    tests = found_tests(g, idx)
+    c.need(len(tests) == 1, 'do_search: test of %s against the not-found value not found' % idx)
+    c.check(tests[0][1] != 'wrong', f, tests[0][0].ast, 'a match is any index >= 0 (index 0, the first pattern of the list, included)',
+            witness=norm(tests[0][0].ast), kind='alg', tag='match-test')
+    if tests[0][1] == 'wrong':
+        return
+    region = guard_region(g, tests[0][0], tests[0][1])
     m = [n for n in region if n.kind == 'stmt' and stmt_assigns_attr(n.ast, 'match') is not None]
     mi = [n for n in region if n.kind == 'stmt' and stmt_assigns_attr(n.ast, 'match_index') is not None]
     c.check(len(m) == 1 and ctext(m[0].ast.value, f) == recv + '.match', f, m[0].ast if m else None,
